@@ -1,6 +1,5 @@
 (** Executable entry points of the reactive model for the correspondence checks of C01, C09
-    and C02: decode a case [(prog ops)], run [Effects.run_fixed], encode the part of the event
-    trace the property constrains. *)
+    and C02: decode a case [(prog ops)], run [Effects.run_fixed], encode the event trace. *)
 From Coq Require Import List ZArith Bool Arith.
 From LV Require Import Base.Sexp Reactive.Graph Reactive.Effects.
 Import ListNotations.
@@ -64,21 +63,7 @@ Definition enc_event (e : event) : sexp :=
   | EvPoll w => Lst [Num 8; s_who w]
   | EvDiverge => Lst [Num 9]
   | EvErr => Lst [Num 10]
-  end.
-
-Definition who_is_eff (p : prog) (w : option nat) : bool :=
-  match w with Some i => is_eff p i | None => false end.
-
-(* what each property observes (same filters as harness/rx) *)
-Definition keep (pid : nat) (p : prog) (e : event) : bool :=
-  match pid, e with
-  | 1%nat, (EvTop _ _ | EvRead _ _ _ _ | EvDiverge | EvErr) => true
-  | 1%nat, _ => false
-  | 9%nat, (EvStart _ | EvRead _ _ _ _ | EvEnd _ _ | EvHStart _ | EvHEnd _ _ | EvDiverge | EvErr) => true
-  | 9%nat, _ => false
-  | 2%nat, (EvStart i | EvEnd i _ | EvHStart i | EvHEnd i _) => is_eff p i
-  | 2%nat, EvRead w _ _ _ => who_is_eff p w
-  | _, _ => true
+  | EvOp => Lst [Num 11]
   end.
 
 Definition run_trace (c : sexp) : prog * list event :=
@@ -86,10 +71,10 @@ Definition run_trace (c : sexp) : prog * list event :=
   let ops := map dec_op (as_list (nth_s 1 c)) in
   (p, rev (trace (run_fixed p ops))).
 
-Definition run_pid (pid : nat) (c : sexp) : sexp :=
-  let '(p, tr) := run_trace c in
-  Lst (map enc_event (filter (keep pid p) tr)).
+(* the three properties observe the same full event trace; their generators, oracles and
+   theorems differ *)
+Definition run_rx (c : sexp) : sexp := Lst (map enc_event (snd (run_trace c))).
 
-Definition run_C01 : sexp -> sexp := run_pid 1.
-Definition run_C09 : sexp -> sexp := run_pid 9.
-Definition run_C02 : sexp -> sexp := run_pid 2.
+Definition run_C01 : sexp -> sexp := run_rx.
+Definition run_C09 : sexp -> sexp := run_rx.
+Definition run_C02 : sexp -> sexp := run_rx.
